@@ -233,7 +233,7 @@ func (k Keeper) EthCall(c context.Context, req *evmtypes.EthCallRequest) (*evmty
 	if err != nil {
 		return nil, status.Error(codes.InvalidArgument, err.Error())
 	}
-	cfg, err := k.EVMConfig(ctx, nil)
+	cfg, err := k.EVMConfig(ctx, k.getProposerOfQueriedBlock(ctx))
 	if err != nil {
 		return nil, status.Error(codes.Internal, err.Error())
 	}
@@ -257,6 +257,17 @@ func (k Keeper) EthCall(c context.Context, req *evmtypes.EthCallRequest) (*evmty
 	}
 
 	return res, nil
+}
+
+// getProposerOfQueriedBlock returns the proposer of the block the query context points to,
+// as recorded in the state of that height (x/staking historical info), so that a query about a historical height
+// does not see the proposer of the latest block. Returns empty when no record is available.
+func (k Keeper) getProposerOfQueriedBlock(ctx sdk.Context) sdk.ConsAddress {
+	historicalInfo, err := k.stakingKeeper.GetHistoricalInfo(ctx, ctx.BlockHeight())
+	if err != nil {
+		return nil
+	}
+	return historicalInfo.Header.ProposerAddress
 }
 
 // EstimateGas implements eth_estimateGas rpc api.
@@ -306,7 +317,7 @@ func (k Keeper) EstimateGas(c context.Context, req *evmtypes.EthCallRequest) (*e
 	}
 
 	gasCap = hi
-	cfg, err := k.EVMConfig(ctx, nil)
+	cfg, err := k.EVMConfig(ctx, k.getProposerOfQueriedBlock(ctx))
 	if err != nil {
 		return nil, status.Error(codes.Internal, "failed to load evm config")
 	}
